@@ -16,6 +16,7 @@ import GoNfsd.Lemmas.Codec
 import GoNfsd.Model.Txn
 import GoNfsd.Lemmas.AllocTxn
 import GoNfsd.Lemmas.Cache
+import GoNfsd.Lemmas.NameCache
 
 namespace GoNfsd.Props.C10
 open GoNfsd.Model.Codec GoNfsd.Gen.Consts
@@ -276,5 +277,82 @@ example : (GoNfsd.Model.Cache.run (GoNfsd.Model.Cache.mk 2) [7, 8, 7, 9, 8, 7]).
     transaction overwrites the bits of another.) -/
 theorem journal_objects_have_the_granularity_of_their_locks :
     GoNfsd.Gen.Skeleton.journalObjects = GoNfsd.Model.Skeleton.journalObjectsExpected := by decide
+
+/-! ### the name cache of a directory (model M8e of `dir/dcache.go`, `dcache.Dcache`, `AddNameDir`'s hint) -/
+
+section namecache
+open GoNfsd.Model.NameCache GoNfsd.Model.Fs
+abbrev NOp := GoNfsd.Model.NameCache.Op
+
+/-- THE CACHED DIRECTORY CONTENTS AGREE WITH WHAT IS ON DISK, in every state reachable by lookups, insertions
+    (each after the lookup that found nothing, as the nfs layer does), removals, evictions / restarts and aborted
+    transactions, in any order and number: the cache holds exactly the live slots — every entry names a live slot
+    with that inode number at that offset, every live slot is in the cache, no name twice — and the `Lastoff`
+    hint lies inside the directory. -/
+theorem name_cache_is_the_directory (ops : List NOp) (c : DC) (h : (run {} ops).cur.dc = some c) :
+    (∀ e ∈ c.ents, ∃ sl : Slot, (run {} ops).cur.slots[e.idx]? = some sl ∧ sl.inum ≠ 0 ∧ sl.name = e.name ∧ sl.inum = e.inum) ∧
+    (∀ (i : Nat) (sl : Slot), (run {} ops).cur.slots[i]? = some sl → sl.inum ≠ 0 → ({ name := sl.name, inum := sl.inum, idx := i } : Ent) ∈ c.ents) ∧
+    c.ents.Pairwise (fun a b => a.name ≠ b.name) ∧
+    c.lastoff ≤ (run {} ops).cur.slots.length := by
+  have hc := (run_inv {} ops empty_inv).cur.coh c h
+  exact ⟨hc.sound, fun i sl hg hl => hc.complete sl.name sl.inum i ⟨sl, hg, hl, rfl, rfl⟩, hc.names, hc.hint⟩
+
+/-- … hence `LookupName`, which trusts the cache, answers in every reachable state — cache present, evicted or
+    never built — what a scan of the directory's slots answers: a restart changes no LOOKUP. -/
+theorem cached_lookup_is_the_scan (ops : List NOp) (name : GoNfsd.Model.Fs.Bytes) :
+    (lookupName (run {} ops).cur name).2 = lookupSlots (run {} ops).cur.slots name :=
+  lookupName_eq _ name (run_inv {} ops empty_inv).cur
+
+/-- Names stay unique on disk although uniqueness is checked in the CACHE only. -/
+theorem names_unique_under_cached_checks (ops : List NOp) : (liveNames (run {} ops).cur.slots).Nodup :=
+  (run_inv {} ops empty_inv).cur.uniq
+
+/-- REFINEMENT: the directory code with its cache, its hint and its reuse of freed slots behaves, for every
+    history, as a plain map from names to inode numbers — same replies (slot offsets aside), same map afterwards.
+    The specification has no cache: `drop` (eviction, restart) is the identity there, so no history of requests
+    can tell a server that was restarted in between from one that was not. -/
+theorem directory_refines_a_plain_map (ops : List NOp) :
+    absSt (runOut {} ops).1 = (specRun (absSt {}) ops).1 ∧
+    (runOut {} ops).2.map Out.noIdx = (specRun (absSt {}) ops).2 :=
+  run_refines {} ops empty_inv
+
+theorem dropping_the_cache_is_invisible (s : Spec) : specStep s GoNfsd.Model.NameCache.Op.drop = (s, .unit) := rfl
+
+/-- THE SLOT A NEW NAME GOES TO is free or the position just past the end — whatever the hint: the slot choice
+    that the reference model M6 validates (`slotOk`) is what `AddNameDir` computes, no live entry is overwritten. -/
+theorem a_new_name_goes_to_a_free_slot (slots : List Slot) (lastoff : Nat) :
+    slotOk slots (addSlot slots lastoff) = true := addSlot_ok slots lastoff
+
+/-- and M6's `addName` with that choice is this model's slot write -/
+theorem reference_insertion_is_the_cached_insertion (d : Inode) (dc : Option DC) (inum : Nat) (name : GoNfsd.Model.Fs.Bytes)
+    (hk : d.kind = GoNfsd.Gen.Consts.NF3DIR) (hl : name.length ≤ GoNfsd.Gen.Consts.MAXNAMELEN) :
+    (GoNfsd.Model.Fs.addName d (addSlot d.slots (Dir.cache { slots := d.slots, dc := dc }).lastoff) inum name).map (·.slots) =
+      some (GoNfsd.Model.NameCache.addName { slots := d.slots, dc := dc } inum name).1.slots := by
+  have hok := addSlot_ok d.slots (Dir.cache { slots := d.slots, dc := dc }).lastoff
+  unfold GoNfsd.Model.Fs.addName GoNfsd.Model.NameCache.addName
+  have : ¬ name.length > GoNfsd.Gen.Consts.MAXNAMELEN := by omega
+  simp [hk, this, hok]
+
+/-- a removal clears a slot inside the directory that holds that very name (the offset comes from the cache) -/
+theorem removal_clears_the_slot_of_the_name (ops : List NOp) (name : GoNfsd.Model.Fs.Bytes) (i : Nat)
+    (h : (remName (run {} ops).cur name).2 = some i) :
+    ∃ sl : Slot, (run {} ops).cur.slots[i]? = some sl ∧ sl.inum ≠ 0 ∧ sl.name = name := by
+  obtain ⟨ino, sl, g, l, n, _⟩ := remName_clears_the_name _ name i (run_inv {} ops empty_inv).cur h
+  exact ⟨sl, g, l, n⟩
+
+/-- non-vacuity and the quirk of `AddNameDir`: offset 0 doubles as "none found", so after `a` is removed from slot 0
+    the hint points at 0 and the next name is appended, not put into the free slot; a cache rebuilt after a drop
+    starts with hint 0 as well -/
+example :
+    let s := run {} [.add [97] 5, .add [98] 6, .rem [97], .add [99] 7, .drop, .add [100] 8, .rem [98], .add [101] 9]
+    s.cur.slots = [freeSlot, { inum := 9, name := [101] }, { inum := 7, name := [99] }, { inum := 8, name := [100] }] ∧
+    (s.cur.dc.map (·.lastoff)) = some 1 ∧ (lookupName s.cur [99]).2 = some (7, 2) := by decide
+
+/-- an aborted transaction: the directory is as before and the cache is gone -/
+example :
+    let s := run {} [.add [97] 5, .begin_, .add [98] 6, .rem [97], .abort, .look [98], .look [97]]
+    s.cur.slots = [{ inum := 5, name := [97] }] ∧ (lookupName s.cur [98]).2 = none ∧ (lookupName s.cur [97]).2 = some (5, 0) := by decide
+
+end namecache
 
 end GoNfsd.Props.C10
